@@ -153,6 +153,9 @@ func (d *Deriv) walk(v ssa.Value, out rootSet, seen map[ssa.Value]bool) {
 		d.mutatedBy(x, out, seen)
 	case *ssa.MakeSlice, *ssa.MakeMap, *ssa.MakeChan:
 		out[x] = true
+		// a map or slice handed to a function of the analysed packages that
+		// writes into that parameter is filled from the call's other arguments
+		d.filledBy(x, out, seen)
 	case *ssa.MakeClosure:
 		out[x] = true
 		for _, b := range x.Bindings {
@@ -394,4 +397,77 @@ func (d *Deriv) Visited(v ssa.Value) map[ssa.Value]bool {
 	seen := map[ssa.Value]bool{}
 	d.walk(v, rootSet{}, seen)
 	return seen
+}
+
+// filledBy: v (a map or slice made here) is passed to an in-scope function
+// that stores into the corresponding parameter: what is stored derives from
+// the call's other arguments.
+func (d *Deriv) filledBy(v ssa.Value, out rootSet, seen map[ssa.Value]bool) {
+	refs := v.Referrers()
+	if refs == nil {
+		return
+	}
+	for _, ref := range *refs {
+		var c ssa.CallInstruction
+		switch r := ref.(type) {
+		case ssa.CallInstruction:
+			c = r
+		case *ssa.ChangeType:
+			d.filledBy(r, out, seen)
+			continue
+		default:
+			continue
+		}
+		sf := staticCallee(c)
+		if sf == nil || sf.Blocks == nil || !d.inScope(sf) || sf.Parent() != nil {
+			continue
+		}
+		com := c.Common()
+		for i, a := range com.Args {
+			if a != v || i >= len(sf.Params) || !d.writesParam(sf, i, 0) {
+				continue
+			}
+			for j, b := range com.Args {
+				if j != i {
+					d.walk(b, out, seen)
+				}
+			}
+		}
+	}
+}
+
+// writesParam: fn stores into the container its parameter #i refers to
+// (directly, or by handing it to an in-scope function that does).
+func (d *Deriv) writesParam(fn *ssa.Function, i int, depth int) bool {
+	if depth > 2 {
+		return false
+	}
+	p := fn.Params[i]
+	sub := &Deriv{w: d.w, top: fn, stores: map[ssa.Value][]ssa.Value{}, sums: d.sums, depth: d.depth + 1}
+	found := false
+	withClosures(fn, func(f *ssa.Function) {
+		allInstrs(f, func(in ssa.Instruction) {
+			switch s := in.(type) {
+			case *ssa.Store:
+				if sub.addrRoot(s.Addr) == ssa.Value(p) {
+					found = true
+				}
+			case *ssa.MapUpdate:
+				if sub.cell(s.Map) == ssa.Value(p) {
+					found = true
+				}
+			case ssa.CallInstruction:
+				sf := staticCallee(s)
+				if sf == nil || sf.Blocks == nil || !d.inScope(sf) || sf == fn {
+					return
+				}
+				for j, a := range s.Common().Args {
+					if a == ssa.Value(p) && j < len(sf.Params) && d.writesParam(sf, j, depth+1) {
+						found = true
+					}
+				}
+			}
+		})
+	})
+	return found
 }
